@@ -700,7 +700,18 @@ func preservePackageSurfaceSymbols(files []parsedFile, cfg *Config, protected *p
 				}
 			case "set":
 				if len(expr.Cells) > 1 {
-					preserveNodeSymbol(files[i].analysis, setSymbolNode(expr.Cells[1]), protected)
+					node := setSymbolNode(expr.Cells[1])
+					preserveNodeSymbol(files[i].analysis, node, protected)
+					// A set of a name that an earlier form already defined
+					// (defun foo ... then (set 'foo ...)) creates no symbol of
+					// its own: it re-binds that definition, whose name is
+					// written here as quoted data and is not rewritten.
+					if node != nil && nodeSymbol(files[i].analysis, node) == nil && files[i].analysis.RootScope != nil {
+						if sym := files[i].analysis.RootScope.Lookup(node.Str); sym != nil {
+							protected.symbols[sym] = true
+							protected.symbolKeys[symbolLookupKey(sym)] = true
+						}
+					}
 				}
 			case "defun", "deftype":
 				if len(expr.Cells) > 1 && expr.Cells[1].Type == lisp.LSymbol {
